@@ -295,7 +295,8 @@ impl IntOracle {
         let s = std::str::from_utf8(lit).ok()?;
         let (x, h) = match mag {
             Magnitude::Moderate | Magnitude::Zero => {
-                let x = Rat::of_dec(&d);
+                // zero with any exponent is zero (no 10^|exp| arithmetic for `0E-900000`)
+                let x = if mag == Magnitude::Zero { Rat::int(0) } else { Rat::of_dec(&d) };
                 let h = if d.nr1 {
                     Rat::int(0)
                 } else {
